@@ -80,6 +80,20 @@ var boundaryLens = []int{0, 1, 7, 8, 9, 10, 11, 19, 20, 21, 31, 32, 33, 63, 64, 
 
 func c14(r *ev.Run) {
 	r.Scenario("admission", func(raw []byte) (string, string) { return admit(unjson[c14Case](raw)) })
+	{
+		var cs []c14Case
+		for m := 1; m < 32; m += 2 {
+			sh := shape{Text: "s", Hash: m % 3, Digits: 4 + m%7, C: m&1 != 0, Q: m&2 != 0, P: m&4 != 0, S: m&8 != 0, T: m&16 != 0, QF: 1 + m%6, PH: 1 + m%3, TS: 60}
+			good := [5]int{8, 16, ref.PLen(sh.PH), 5, 8}
+			for f := 0; f < 5; f++ {
+				l := good
+				l[f] = []int{0, 7, 129, 9, 21}[f]
+				cs = append(cs, c14Case{sh, l, "input.Validate"}, c14Case{sh, l, "generate"})
+			}
+			cs = append(cs, c14Case{sh, good, "input.Validate"}, c14Case{sh, good, "generate"}, c14Case{sh, good, "validate"}, c14Case{sh, good, "suite.Validate"})
+		}
+		afterWarmups(r, "admission-after-other-operations", cs, admit)
+	}
 	if ReplayOnly {
 		return
 	}
